@@ -404,7 +404,18 @@ def length(x): return len(x)
 def set_field(m, f, v): proto.set_field(m, f, v)
 def get_field(m, f): return proto.get_field(m, f)
 def has(m, f): return proto.has(m, f)
-def call_kw1(ctor, name, v): return ctor(**{name: v})
+def itermut(r, v):
+    n = 0
+    for x in r:
+        r.append(v)
+        n += 1
+        if n > 3: break
+def itermutmap(m, k, v):
+    n = 0
+    for x in m:
+        m[k] = v
+        n += 1
+        if n > 3: break
 `)
 	names := map[string]bool{}
 	for _, md := range []protoreflect.MessageDescriptor{mdAll, mdLeaf, mdT, mdP2, mdP2.Messages().ByName("G"), mdP2.Messages().ByName("RG")} {
